@@ -142,6 +142,21 @@ def main(argv=None):
     run = Run(pid, tier, seed)
     rc = 0
     mod = None
+    # wall-clock watchdog: a check that cannot decide in time is UNDECIDED (exit 2), it never hangs and never reports a violation
+    import signal
+    wall = int(os.environ.get("VERIF_WALL_S", "0") or 0) or (7200 if tier == "thorough" else 1500)
+
+    class WallClock(Exception):
+        pass
+
+    fired = []
+
+    def on_alarm(signum, frame):
+        fired.append(1)
+        signal.alarm(1)           # keep firing: an exception raised inside a destructor is swallowed by the interpreter
+        raise WallClock()
+    signal.signal(signal.SIGALRM, on_alarm)
+    signal.alarm(wall)
     try:
         mod = load_prop(pid)
         mod.build(run)
@@ -172,6 +187,12 @@ def main(argv=None):
             handle_failure(run, mod, o, known)
         if hasattr(mod, "post"):
             mod.post(run)
+    except WallClock:
+        run.notes.append("undecided: wall-clock budget of %d s exhausted" % wall)
+        print("UNDECIDED property=%s reason=wall-clock budget of %d s exhausted" % (pid, wall))
+        for ch in mp_children():
+            ch.terminate()
+        rc = 2
     except core_unsupported() as e:
         run.notes.append("undecided: %s" % (e,))
         print("UNDECIDED property=%s reason=%s" % (pid, e))
@@ -180,6 +201,12 @@ def main(argv=None):
         traceback.print_exc()
         run.notes.append("checker crash: %r" % (e,))
         rc = 3
+    finally:
+        signal.alarm(0)
+    if fired and rc == 0:
+        run.notes.append("undecided: wall-clock budget of %d s exhausted" % wall)
+        print("UNDECIDED property=%s reason=wall-clock budget of %d s exhausted" % (pid, wall))
+        rc = 2
     # known findings count as discharged-with-finding for the level accounting
     level = getattr(mod, "LEVEL", "proof") if mod else "proof"
     for o in run.obls:
@@ -225,6 +252,11 @@ def main(argv=None):
               % (pid, tier, c["obligations"], c["discharged"], c["cover_queries"], len(run.violations), len(run.known),
                  len(run.undecided), ev["wall_s"]))
     return rc
+
+
+def mp_children():
+    import multiprocessing
+    return multiprocessing.active_children()
 
 
 def core_unsupported():
